@@ -47,6 +47,21 @@ pub fn run_table_cmd(t: &HashMap<&'static str, Box<dyn Runner>>, args: &[String]
                 out.flush().unwrap();
             }
         }
+        // record <seed> <runs> <maxlen> [key-regex-free prefix filter]: recorded executions on random values
+        Some("record") => {
+            let seed: u64 = args[2].parse().unwrap();
+            let runs: usize = args[3].parse().unwrap();
+            let maxlen: usize = args[4].parse().unwrap();
+            let mut ks: Vec<&str> = t.keys().cloned().collect();
+            ks.sort();
+            let mut g = crate::model::Gen::new(seed, maxlen);
+            for _ in 0..runs {
+                let k = ks[g.below(ks.len())];
+                let mut ev = vec![];
+                t[k].trace(&mut g, &mut ev);
+                for e in ev { writeln!(out, "{}", e).unwrap(); }
+            }
+        }
         Some("keys") => {
             let mut ks: Vec<&str> = t.keys().cloned().collect();
             ks.sort();
